@@ -64,7 +64,9 @@ fn block_strategy() -> impl Strategy<Value = BlockSpec> {
         prop_oneof![3 => 1usize..=4, 1 => 5usize..=8, 1 => 20usize..=40],
         any::<u64>(),
         prop::collection::vec(slice, 40),
-        prop::option::weighted(0.3, (any::<u16>(), 0u64..3)),
+        // handover: the new parent lies 1..=3 slots before the first one, or (back = 3 -> "same")
+        // is another block of the very same slot (a second block of an equivocating earlier leader)
+        prop::option::weighted(0.3, (any::<u16>(), 0u64..4)),
     )
         .prop_map(|(slot, leader, k, seed, mut slices, handover)| {
             slices.truncate(k);
@@ -73,7 +75,7 @@ fn block_strategy() -> impl Strategy<Value = BlockSpec> {
                 && k >= 2
             {
                 let i = 1 + pick_idx(at, k - 1);
-                let ps = parent.0.saturating_sub(1 + back).max(0);
+                let ps = if back == 3 { parent.0 } else { parent.0.saturating_sub(1 + back).max(0) };
                 if (ps, 60) != parent {
                     slices[i].switch_parent = Some((ps, 60 + back));
                 }
@@ -285,6 +287,9 @@ fn run(case: &Case, out: &mut Outcome) {
     let slot = case.block.slot;
     let leader_pk = keys().sig[case.block.leader as usize % 64].to_pk();
     let plan = plan(case, &built);
+    if let Some(np) = case.block.slices.iter().skip(1).find_map(|s| s.switch_parent) {
+        out.label(if np.0 == case.block.parent.0 { "handover=same-slot-other-block" } else { "handover=earlier-slot" });
+    }
     out.label(match &case.malform {
         None => "well-formed".to_string(),
         Some(m) if plan.malformed => format!("malformed:{}", format!("{m:?}").split(['(', ' ', '{']).next().unwrap_or("")),
